@@ -1,11 +1,10 @@
 package main
 
 import (
-	"sort"
-	"go/types"
 	"fmt"
-	"go/constant"
 	"go/token"
+	"go/types"
+	"sort"
 	"strings"
 
 	"golang.org/x/tools/go/ssa"
@@ -15,8 +14,8 @@ func init() { register("C19", checkC19) }
 
 // parseFormat splits a Printf format into verbs and literal runs.
 type fmtPart struct {
-	verb  string // e.g. "%d", "% X"; empty for literal
-	lit   string
+	verb string // e.g. "%d", "% X"; empty for literal
+	lit  string
 }
 
 func parseFormat(f string) []fmtPart {
@@ -127,82 +126,64 @@ func checkC19(c *Ctx) {
 		decConsts[cc.k] = true
 	}
 	sep, term := int64(-1), int64(-1)
+	hexLower := false
 	termReturns := true
-	// ---- encoder format
+	// ---- encoder: abstract run of the out port's Send (abs_fmt.go) on an open port with a symbolic message of 1..2000
+	// bytes; what reaches the helper's pipe on the successful outcomes is the line. Independent of how the line is
+	// produced (Fprintf, Sprintf + Write, strconv/hex + append, ...).
 	send := p.MethodOf(typesPtr(outT), "Send")
-	var format string
-	var fcall ssa.CallInstruction
-	if send != nil {
-		c.Fn(FuncName(send))
-		for _, call := range calls(send) {
-			if calleeQual(call) == "fmt.Fprintf" {
-				if cst, ok := call.Common().Args[1].(*ssa.Const); ok && cst.Value != nil && cst.Value.Kind() == constant.String {
-					format = constant.StringVal(cst.Value)
-					fcall = call
-				}
-			}
-		}
-	}
-	if fcall == nil {
-		c.Unk("C19.1", "encoder format", "-", "no constant Fprintf format in the out port's Send")
+	if send == nil {
+		c.Unk("C19.1", "out port Send", "-", "not resolved")
 	} else {
-		parts := parseFormat(format)
-		ok := len(parts) == 4 && parts[0].verb != "" && parts[1].lit != "" && parts[2].verb != "" && parts[3].lit != ""
-		why := fmt.Sprintf("format %q is not <verb><sep><verb><term>", format)
+		c.Fn(FuncName(send))
+		line, why := encoderLine(c, send, outT)
+		okLine := line != nil
+		if okLine {
+			sep, term = line.sep, line.term
+		}
+		ok := okLine
 		if ok {
-			ok = len(parts[1].lit) == 1 && len(parts[3].lit) == 1
-			if ok {
-				sep, term = int64(parts[1].lit[0]), int64(parts[3].lit[0])
-				ok = len(decConsts) == 2 && decConsts[sep] && decConsts[term]
-				var ks []string
-				for k := range decConsts {
-					ks = append(ks, fmt.Sprintf("%q", string(rune(k))))
+			ok = len(decConsts) == 2 && decConsts[sep] && decConsts[term] && sep != term
+			var ks []string
+			for k := range decConsts {
+				ks = append(ks, fmt.Sprintf("%q", string(rune(k))))
+			}
+			sort.Strings(ks)
+			why = fmt.Sprintf("encoder uses separator %q terminator %q; the decoder compares source bytes with %s", string(rune(sep)), string(rune(term)), strings.Join(ks, ", "))
+			// one record per call: once the terminator comparison succeeds, no further read is reachable in that function
+			for _, cc := range cmps {
+				if cc.k != term {
+					continue
 				}
-				sort.Strings(ks)
-				why = fmt.Sprintf("encoder uses separator %q terminator %q; the decoder compares source bytes with %s", parts[1].lit, parts[3].lit, strings.Join(ks, ", "))
-				// one record per call: once the terminator comparison succeeds, no further read is reachable in that function
-				for _, cc := range cmps {
-					if cc.k != term {
+				te, _ := ifEdges(cc.iff)
+				if len(te.to.Instrs) == 0 {
+					continue
+				}
+				for _, call := range calls(cc.fn) {
+					cal := call.Common().StaticCallee()
+					isRead := (cal != nil && byteReaders[cal]) || (invokeIs(call, "Read") && call.Common().Value.Type().String() == "io.Reader")
+					if !isRead {
 						continue
 					}
-					te, _ := ifEdges(cc.iff)
-					if len(te.to.Instrs) == 0 {
-						continue
-					}
-					for _, call := range calls(cc.fn) {
-						cal := call.Common().StaticCallee()
-						isRead := (cal != nil && byteReaders[cal]) || (invokeIs(call, "Read") && call.Common().Value.Type().String() == "io.Reader")
-						if !isRead {
-							continue
-						}
-						ci := call.(ssa.Instruction)
-						if te.to.Instrs[0] == ci || canReachAvoiding(te.to.Instrs[0], ci, nil) {
-							termReturns = false
-						}
+					ci := call.(ssa.Instruction)
+					if te.to.Instrs[0] == ci || canReachAvoiding(te.to.Instrs[0], ci, nil) {
+						termReturns = false
 					}
 				}
 			}
 		}
-		c.Check(ok, "C19.1", "encoder format vs decoder constants", p.Pos(fcall.Pos()), fmt.Sprintf("format %q; decoder separator %q terminator %q", format, string(rune(sep)), string(rune(term))), why)
-		// verbs and argument types
-		ok2 := len(parts) == 4
-		why2 := "format shape"
-		if ok2 {
-			v1, v2 := parts[0].verb, parts[2].verb
-			ok2 = v1 == "%d" && v2 == "%X"
-			why2 = fmt.Sprintf("verbs %q %q: the time stamp must be printed with %%d and the bytes with %%X (no space or # flag, upper case as the decoder's %%X scan expects)", v1, v2)
-			// static types of the variadic args
-			if ok2 {
-				var1, var2 := variadicArgTypes(fcall)
-				ok2 = strings.Contains(var1, "int") && (var2 == "[]byte" || var2 == "[]uint8")
-				why2 = fmt.Sprintf("argument types %s, %s: need an integer and a byte slice", var1, var2)
-			}
-			if ok2 && (strings.ContainsRune("-0123456789ABCDEF", rune(sep)) || strings.ContainsRune("-0123456789ABCDEF", rune(term))) {
-				ok2 = false
-				why2 = "separator or terminator is a character the payload alphabet can contain"
-			}
+		desc := ""
+		if okLine {
+			desc = line.desc
 		}
-		c.Check(ok2, "C19.2", "verbs and alphabets", p.Pos(fcall.Pos()), "%d on an integer and %X on a byte slice emit only [-0-9] and [0-9A-F]; neither contains the separator or the terminator", why2)
+		c.Check(ok, "C19.1", "encoder line vs decoder constants", p.Pos(send.Pos()), fmt.Sprintf("Send writes %s; decoder separator %q terminator %q", desc, string(rune(sep)), string(rune(term))), why)
+		ok2, why2 := okLine, why
+		if ok2 && (strings.ContainsRune("-0123456789ABCDEFabcdef", rune(sep)) || strings.ContainsRune("-0123456789ABCDEFabcdef", rune(term))) {
+			ok2 = false
+			why2 = "separator or terminator is a character the time stamp / payload alphabet can contain"
+		}
+		c.Check(ok2, "C19.2", "texts and alphabets", p.Pos(send.Pos()), "the line is <decimal text><sep><hex text of the whole message><term>: the texts emit only [-0-9] and [0-9A-Fa-f]; neither contains the separator or the terminator", why2)
+		hexLower = okLine && line.lower
 	}
 	// ---- C19.3 read discipline
 	scope := p.Reachable(rac)
@@ -234,7 +215,7 @@ func checkC19(c *Ctx) {
 	ps := NewPanicScan(p, scope)
 	ps.Check(c, "C19.4", scope)
 	// ---- C19.5 the decoder's conversions invert the encoder's verbs
-	conversionsInvert(c, "C19.5", scope)
+	conversionsInvert(c, "C19.5", scope, hexLower)
 	// ---- C19.6 no length limit inside the stated message sizes
 	noSmallLimit(c, "C19.6", scope)
 }
@@ -243,7 +224,7 @@ func checkC19(c *Ctx) {
 // separator, []byte -> ([]byte, error) for the text after it — are interpreted abstractly on the decimal text of a
 // symbolic int32 (whole range) and on the hex text of a symbolic payload of any length >= 1: every path must return the
 // original value and a nil error.
-func conversionsInvert(c *Ctx, rule string, scope []*ssa.Function) {
+func conversionsInvert(c *Ctx, rule string, scope []*ssa.Function, hexLower bool) {
 	p := c.P
 	var convDelta, convHex []*ssa.Function
 	for _, f := range scope {
@@ -306,6 +287,11 @@ func conversionsInvert(c *Ctx, rule string, scope []*ssa.Function) {
 		st := ex.NewState()
 		payload := ex.unknownSlice(st, types.Typ[types.Uint8], "msg", 1)
 		txt := ex.mkHexText(st, "msg", payload)
+		if hexLower { // the case the encoder emits
+			m := ex.texts["hex:msg"]
+			m.lower = true
+			ex.texts["hex:msg"] = m
+		}
 		wantSegs, _ := ex.sliceSegs(st, payload)
 		ok, why, n := true, "", 0
 		for _, o := range ex.Call(st, f, []Val{txt}, nil) {
@@ -519,4 +505,137 @@ func isStampBuffer(x ssa.Value, fn *ssa.Function) bool {
 		}
 	}
 	return false
+}
+
+// encLine: the line the encoder writes for one message, as decided by encoderLine.
+type encLine struct {
+	sep, term int64
+	lower     bool
+	desc      string
+}
+
+// encoderLine runs the out port's Send abstractly: the port is open (every pointer field of the port holds an object),
+// the message is a symbolic byte slice of 1..2000 bytes, the pipe is a writer that is not analysed (its writes are
+// recorded; each may succeed or fail). On every outcome that reports success the bytes handed to the pipe must be
+//
+//	<decimal text> <one constant byte> <hex text of exactly the message> <one constant byte>
+//
+// and every outcome that handed over fewer bytes must report an error.
+func encoderLine(c *Ctx, send *ssa.Function, outT types.Type) (*encLine, string) {
+	p := c.P
+	ex := NewExec(p)
+	ex.FmtModel = true
+	ex.WriterContract = true
+	ex.texts = map[string]textMeaning{}
+	st := ex.NewState()
+	op := ex.newZeroObject(st, outT)
+	if sv, ok := st.heap[op.Obj].(*StructV); ok {
+		for i := 0; i < sv.T.NumFields(); i++ {
+			if pt, ok := sv.T.Field(i).Type().(*types.Pointer); ok {
+				if _, isStruct := pt.Elem().Underlying().(*types.Struct); isStruct {
+					sv.Fields[i] = ex.newZeroObject(st, pt.Elem())
+				}
+			}
+			if b, ok := sv.T.Field(i).Type().Underlying().(*types.Basic); ok && b.Kind() == types.Bool {
+				sv.Fields[i] = &BoolV{} // an "open" flag, if the port has one: either value, closed outcomes fail
+			}
+		}
+	}
+	payload := ex.unknownSlice(st, types.Typ[types.Uint8], "msg", 1)
+	if s := payload.Len.T.Syms; len(s) == 1 {
+		st.refineSym(s[0], 1, 2000)
+	}
+	outs := ex.Call(st, send, []Val{op, payload}, nil)
+	if ex.Budget || len(outs) == 0 {
+		return nil, "abstract run of Send did not complete"
+	}
+	for u := range ex.Unsupported {
+		return nil, "unmodelled construct in Send: " + u
+	}
+	var res *encLine
+	for _, o := range outs {
+		if o.Panic || len(problemEvents(o.St.Events)) > 0 {
+			return nil, "Send may panic: " + o.Msg + fmtEvents(problemEvents(o.St.Events))
+		}
+		ev, _ := o.Ret[0].(*IfaceV)
+		if ev == nil || !ev.Nil {
+			if ev != nil && ev.Unk && !ev.NonNil {
+				// may be nil: treated as a success outcome below only if it wrote; an unknown error after a failed
+				// write is the writer's error handed on
+				continue
+			}
+			continue
+		}
+		var segs []Seg
+		for _, w := range ex.writesOf(o) {
+			if w == nil {
+				return nil, "bytes handed to the pipe are not tracked"
+			}
+			segs = append(segs, w...)
+		}
+		segs = normSegs(o.St.dropEmptyRuns(segs))
+		// tokens: constant bytes and runs
+		type tok struct {
+			k   int64
+			run *Run
+		}
+		var toks []tok
+		for _, sg := range segs {
+			if sg.Run != nil {
+				toks = append(toks, tok{run: sg.Run})
+				continue
+			}
+			for _, e := range sg.Elems {
+				iv, _ := e.(*IntV)
+				k, isK := int64(0), false
+				if iv != nil {
+					k, isK = o.St.ConstOf(iv)
+				}
+				if !isK {
+					return nil, "a byte of the line is neither a constant nor part of a decimal/hex text: " + arrayStringIn(o.St, &ArrayV{Segs: segs})
+				}
+				toks = append(toks, tok{k: k})
+			}
+		}
+		i := 0
+		// time stamp: constant digits or a decimal text
+		ts := ""
+		if i < len(toks) && toks[i].run != nil {
+			if m, ok := ex.texts[toks[i].run.Src]; !ok || m.dec == nil {
+				return nil, "the line does not start with a decimal time stamp: " + arrayStringIn(o.St, &ArrayV{Segs: segs})
+			}
+			ts = "<decimal text>"
+			i++
+		} else {
+			for i < len(toks) && toks[i].run == nil && (toks[i].k == '-' && ts == "" || toks[i].k >= '0' && toks[i].k <= '9') {
+				ts += string(rune(toks[i].k))
+				i++
+			}
+			if ts == "" || ts == "-" {
+				return nil, "the line does not start with a decimal time stamp: " + arrayStringIn(o.St, &ArrayV{Segs: segs})
+			}
+		}
+		if i+2 >= len(toks) || toks[i].run != nil || toks[i+1].run == nil || toks[i+2].run != nil || i+3 != len(toks) {
+			return nil, "the line is not <time stamp><one byte><hex text of the message><one byte>: " + arrayStringIn(o.St, &ArrayV{Segs: segs})
+		}
+		m, ok := ex.texts[toks[i+1].run.Src]
+		if !ok || m.hex == nil {
+			return nil, "the message is not written as hex text: " + arrayStringIn(o.St, &ArrayV{Segs: segs})
+		}
+		whole := m.hex.Obj == payload.Obj && len(m.hex.Path) == 0 && o.St.sameInt(m.hex.Off, payload.Off) && o.St.sameInt(m.hex.Len, payload.Len) &&
+			termEq(toks[i+1].run.Off, constTerm(0)) && termEq(toks[i+1].run.Len, o.St.TermOf(o.St.Arith(token.MUL, payload.Len, mkConst(2, 64, true), "")))
+		if !whole {
+			return nil, "the hex text on the line does not cover exactly the message handed to Send"
+		}
+		l := &encLine{sep: toks[i].k, term: toks[i+2].k, lower: m.lower}
+		l.desc = fmt.Sprintf("%q %q <hex of the message> %q", ts, string(rune(l.sep)), string(rune(l.term)))
+		if res != nil && (res.sep != l.sep || res.term != l.term || res.lower != l.lower) {
+			return nil, "the line format differs between paths of Send"
+		}
+		res = l
+	}
+	if res == nil {
+		return nil, "no outcome of Send on an open port reports success"
+	}
+	return res, ""
 }
